@@ -904,6 +904,7 @@ class AV:
         self._nt = None
         self._inst: dict = {}
         self.nt_of: dict = {}
+        self.get_log: list = []  # D.get(k) lookups read as D[k] (key present); a rule that cares asks here
         self.handler_log: list = []  # handlers that translate an exception into another one
         self.attr_stores: list = []  # (function, value of the object, attribute, value stored, node)
 
@@ -959,7 +960,7 @@ class AV:
                     name = (dotted(e) or "Exception").split(".")[-1]
                 return ("raise", name)
             if isinstance(st, ast.If):
-                cond = self._truth(self._ev(st.test, fr))
+                cond = self._cond(st.test, fr)
                 if cond[0] == "c":
                     return self._run(list(st.body if cond[1] else st.orelse) + rest, fr, cont)
                 if _has_exit(st):
@@ -1516,6 +1517,18 @@ class AV:
         return v
 
     # -- expressions ----------------------------------------------------------------------------------
+    def _cond(self, n, fr: Frame):
+        """value of an expression used as a condition: only its truth matters"""
+        if isinstance(n, ast.BoolOp):
+            vals = [self._cond(v, fr) for v in n.values]
+            out = vals[0]
+            for v in vals[1:]:
+                out = mk_and(out, v) if isinstance(n.op, ast.And) else mk_or(out, v)
+            return out
+        if isinstance(n, ast.UnaryOp) and isinstance(n.op, ast.Not):
+            return mk_not(self._cond(n.operand, fr))
+        return self._truth(self._ev(n, fr))
+
     def _truth(self, v):
         if v[0] == "c":
             return C(bool(v[1]))
@@ -1579,17 +1592,27 @@ class AV:
                 return C(-v[1] if isinstance(n.op, ast.USub) else v[1])
             return ("op", "neg" if isinstance(n.op, ast.USub) else "pos", v, NONE)
         if isinstance(n, ast.BoolOp):
-            vals = [self._truth(self._ev(v, fr)) for v in n.values]
-            out = vals[0]
-            for v in vals[1:]:
-                out = mk_and(out, v) if isinstance(n.op, ast.And) else mk_or(out, v)
+            raw = [self._ev(v, fr) for v in n.values]
+            if all(_is_boolean(v) for v in raw):
+                vals = [self._truth(v) for v in raw]
+                out = vals[0]
+                for v in vals[1:]:
+                    out = mk_and(out, v) if isinstance(n.op, ast.And) else mk_or(out, v)
+                return out
+            # in value position `a or b` is a when a is true, else b (`a and b`: b when a is true, else a)
+            out = raw[-1]
+            for v in reversed(raw[:-1]):
+                if isinstance(n.op, ast.Or) and _empty_of_same_kind(v, out):
+                    out = v  # `set(x) or set()`: a false set is the empty set
+                    continue
+                out = mk_if(self._truth(v), v, out) if isinstance(n.op, ast.Or) else mk_if(self._truth(v), out, v)
             return out
         if isinstance(n, ast.Compare):
             if len(n.ops) != 1:
                 return unk("chained comparison")
             return mk_cmp(CMPS[type(n.ops[0])], self._ev(n.left, fr), self._ev(n.comparators[0], fr))
         if isinstance(n, ast.IfExp):
-            return mk_if(self._truth(self._ev(n.test, fr)), self._ev(n.body, fr), self._ev(n.orelse, fr))
+            return mk_if(self._cond(n.test, fr), self._ev(n.body, fr), self._ev(n.orelse, fr))
         if isinstance(n, ast.Attribute):
             d_ = dotted(n)
             if d_ is not None:
@@ -1666,7 +1689,7 @@ class AV:
             it0, idx0 = self._iter(it0, d0)
             inner0 = Frame(fr.func, fr.rel, dict(fr.env), fr.depth, d0)
             self._bind_loop_target(g0.target, it0, idx0, d0, inner0)
-            conds0 = tuple(self._truth(self._ev(c, inner0)) for c in g0.ifs)
+            conds0 = tuple(self._cond(c, inner0) for c in g0.ifs)
             sub = self._comp(n, elt, inner0, gens[1:])
             return mk_comp(d0, it0, (("spread", sub),), conds0)
         g = gens[0]
@@ -1682,7 +1705,7 @@ class AV:
             for k, elem in enumerate(known[1]):
                 inner = Frame(fr.func, fr.rel, dict(fr.env), fr.depth, fr.binder)
                 self._bind(g.target, elem if idx is None else ("list", (C((idx[2][1] if idx[2][0] == "c" else 0) + k), elem)), inner)
-                cs = [self._truth(self._ev(c, inner)) for c in g.ifs]
+                cs = [self._cond(c, inner) for c in g.ifs]
                 if any(c == C(False) for c in cs):
                     continue
                 x = self._ev(elt, inner)
@@ -1693,7 +1716,7 @@ class AV:
             return mk_list(out)
         inner = Frame(fr.func, fr.rel, dict(fr.env), fr.depth, d)
         self._bind_loop_target(g.target, it, idx, d, inner)
-        conds = tuple(self._truth(self._ev(c, inner)) for c in g.ifs)
+        conds = tuple(self._cond(c, inner) for c in g.ifs)
         body = self._ev(elt, inner)
         return mk_comp(d, it, (body,), conds)
 
@@ -2063,6 +2086,7 @@ class AV:
                 recv = self._ev(recv_node, fr)
                 if recv[0] in ("sym", "attr") or (recv[0] == "dict" and not all(k[0] == "c" for k, _ in recv[1])):
                     # the value for a present key; `is None` tests on it are read as 'key absent' (see mk_cmp)
+                    self.get_log.append((fr.func, recv, args[0]))
                     return ("sub", recv, args[0])
             if m == "get" and args:
                 recv = self._ev(recv_node, fr)
@@ -2489,6 +2513,29 @@ def _attr(base, name):
 
 # methods whose result is a string whatever the receiver (sympy's printer API, str methods)
 STR_METHODS = {"doprint", "_print", "strip", "lstrip", "rstrip", "format", "lower", "upper", "replace", "_get_comment", "_get_statement", "_format"}
+
+
+def _empty_of_same_kind(a, e) -> bool:
+    """e is the empty value of the type a is known to have"""
+    if e[0] == "call" and e[1] in ("set", "list", "dict", "tuple", "frozenset") and not e[2] and not e[3]:
+        return a[0] == "call" and a[1] == e[1]
+    if e == ("list", ()):  # [], (), set(), list(), tuple() are all modelled as the empty sequence
+        return a[0] in ("list", "comp") or (a[0] == "call" and a[1] in ("set", "list", "tuple", "frozenset", "sorted"))
+    if e == ("dict", ()):
+        return a[0] == "dict"
+    if e == C(""):
+        return _is_str(a)
+    return False
+
+
+def _is_boolean(v) -> bool:
+    return (
+        v[0] in ("cmp", "not", "bool")
+        or (v[0] == "c" and isinstance(v[1], bool))
+        or (v[0] == "call" and v[1] in ("isinstance", "issubclass", "any", "all", "bool", "callable", "hasattr", "nonempty", "raised"))
+        or (v[0] == "mcall" and v[2] in ("startswith", "endswith", "has", "isidentifier", "isdigit", "exists", "is_file", "is_dir", "issubset", "issuperset", "isdisjoint"))
+        or (v[0] == "if" and _is_boolean(v[2]) and _is_boolean(v[3]))
+    )
 
 
 def _is_str(v) -> bool:
